@@ -545,9 +545,43 @@ def clause7_bound(ctx, P, rows):
     ctx.floor("C16.7 R-BOUND", 2)
 
 
+def clause8_get_walks_all(ctx, P, cg):
+    """get applies the rule to the elements of EVERY peer: the walk over the peer list (and over a peer's elements) is left
+    early only when collecting failed"""
+    n = 0
+    for key in ("fetch.c:get_elements",):
+        f = P.fn(key)
+        for h, body in f.loops().items():
+            n += 1
+            bad = []
+            for b in sorted(body):
+                if b == h:
+                    continue
+                for (sv, atom, pol) in P.edge_conds(f, b):
+                    if sv in body:
+                        continue
+                    ok = False
+                    if atom is not None and atom[0] == "cmp" and atom[2][0] in ("call", "phi") and atom[3] == ("const", 0) and \
+                            ((atom[1] in ("slt", "ne") and pol) or (atom[1] in ("sge", "eq") and not pol)):
+                        if atom[2][0] == "call":
+                            lv = {atom[2]}
+                        else:
+                            lv, _ = Q.leaves(P, f, atom[2][1], through_loads=False)
+                        # a status: results of own functions and status constants only
+                        ok = all((l[0] == "const") or (l[0] == "call" and P.by_src.get(l[1]) and P.own(P.by_src[l[1]][0])) for l in lv)
+                    if not ok:
+                        bad.append((b, atom, pol))
+            ctx.ob("C16.4 R-LOOP", f, "get-walks-every-peer#%d" % n, not bad,
+                   "the walk over the peers is left early on %s: elements of peers visited later are missing from the answer although "
+                   "they match the rule" % "; ".join("%s [%s]" % (f.blocks[b][0].loc, fmt_atom(a, p) if a else "unconditional") for b, a, p in bad[:3]))
+    if n < 1:
+        raise AnalysisBroken("get_elements: peer walk not found")
+
+
 def run(ctx):
     for cfg in ctx.configs(["default"] if ctx.tier == "quick" else None):
         P, cg = cfg.P, cfg.cg
+        clause8_get_walks_all(ctx, P, cg)
         rows = clause1_table(ctx, P)
         clause2_siblings(ctx, P, rows)
         clause2b_casefold(ctx, P)
